@@ -66,7 +66,7 @@ AGENT_SCENARIO = {"cmd": "agent", "driver": "AgentDriver", "sections": None, "ev
 
 CHECKS = {
     "C01": {
-        "lean": ["DrummerVerif.Props.C01"],
+        "lean": ["DrummerVerif.Props.C01", "DrummerVerif.Props.Witness"],
         "streams": [loopstream(25, 600),
                     AGENT_SCENARIO],
         "rule": RULE_LOOP + " | execute step on real NodeHosts (agent harness, scenario part): every row of the launch / join / restore table the scheduler can produce (launch on a fresh host, join without data, join again after a restart with data, restore with data, restore without data), fenced add / delete, kill, compared with the model's table `instantiate` that the fleet half of the loop model follows (theorem fleet_model_follows_agent_table)",
@@ -143,13 +143,13 @@ CHECKS = {
         "rule": RULE_SCHED, "assumptions": DB_ASSUME + ["scripted random sources return what math/rand can return (Int() >= 0)"],
     },
     "C12": {
-        "lean": ["DrummerVerif.Props.C12"],
+        "lean": ["DrummerVerif.Props.C12", "DrummerVerif.Props.Witness"],
         "streams": [schedstream("repair", 400, 6000, ["maintain"]), schedstream("general", 100, 1500, ["maintain"]), loopstream(10, 300),
                     dbstream("general", 150, 2000, ["res", "hosts"])],
         "rule": RULE_SCHED + " | " + RULE_LOOP + " | " + (RULE_DB % "general") + " (here: the per-host record of persisted logs that restore decisions read)", "assumptions": DB_ASSUME,
     },
     "C02": {
-        "lean": ["DrummerVerif.Props.C02"],
+        "lean": ["DrummerVerif.Props.C02", "DrummerVerif.Props.Witness"],
         "streams": [schedstream("repair", 400, 6000, ["maintain"]), schedstream("general", 100, 1500, ["maintain"]), loopstream(12, 300),
                     AGENT_SCENARIO],
         "rule": RULE_SCHED + " | " + RULE_LOOP + " | execute step on real NodeHosts (agent harness, scenario part): membership changes fenced by the version on launched, joined and restored replicas", "assumptions": DB_ASSUME + ["fleet half of the loop model (dragonboat's ordered config change, start/restart rules) is an assumption validated by the agent harness"],
@@ -190,7 +190,7 @@ CHECKS = {
         "assumptions": DB_ASSUME,
     },
     "C11": {
-        "lean": ["DrummerVerif.Props.C11"],
+        "lean": ["DrummerVerif.Props.C11", "DrummerVerif.Props.Witness"],
         "streams": [dbstream("c11", 250, 4000, ["res", "img", "kill"]), dbstream("general", 150, 2000, ["res", "img", "kill"]),
                     schedstream("general", 150, 2000, ["maintain"]), loopstream(12, 300), AGENT_SCENARIO],
         "rule": RULE_DB % "c11 (every second report of a non-member host carries a stray replica) and general",
